@@ -319,6 +319,60 @@ def exec_step(s: t.Any, side: str, step: t.Dict[str, t.Any], mdl: model.Model) -
         except BaseException as e:
             return Outcome("garbage", False, e, None, None, {})
         return Outcome("garbage", True, None, [absval.to_abstract(x, decoded=True) for x in r], None, {})
+    if op == "register":
+        from . import custom
+
+        cls = custom.classes()[step["what"]]
+        meth = {"control": "register_control", "filter": "register_filter", "auth": "register_auth_credential"}[step["what"]]
+        try:
+            getattr(s, meth)(cls)
+        except BaseException as e:
+            return Outcome("register", False, e, None, None, {"what": step["what"]})
+        return Outcome("register", True, None, None, None, {"what": step["what"]})
+    if op == "call-custom":
+        from . import custom
+
+        C = custom.classes()
+        what = step["what"]
+        v = step.get("v", 0)
+        try:
+            if what == "filter":
+                r = s.search_request(base_object="dc=c", filter=C["filter"](value=f"f{v}"))
+            elif what == "auth":
+                r = s.bind("cn=c", C["auth"](username=f"u{v}", password="pw"))
+            else:
+                r = s.extended_request("1.2.3.4", controls=[C["control"](critical=bool(v % 2), size=v)])
+        except BaseException as e:
+            return Outcome("call", False, e, None, None, {"what": {"filter": "search", "auth": "bind", "control": "extended"}[what]})
+        return Outcome("call", True, None, r, None, {"what": {"filter": "search", "auth": "bind", "control": "extended"}[what]})
+    if op == "recv-custom":
+        from . import custom
+
+        what = step["what"]
+        v = step.get("v", 0)
+        ctrl = [("generic", custom.OID_CUSTOM_CONTROL, bool(v % 2), (v * 1000 + 7).to_bytes(4, "big"))]
+        if side == "server":
+            mid = mdl.resolve(("fresh", v))
+            if what == "filter":
+                m = peer_message("searchRequest", mid, 0, 0)
+                m["filter"] = ("custom", custom.CUSTOM_FILTER_ID, f"flt{v}".encode())
+            elif what == "auth":
+                m = peer_message("bindRequest", mid, 0, 0)
+                m["auth"] = ("custom", custom.CUSTOM_AUTH_ID, f"user{v}:secret".encode())
+            else:
+                m = peer_message("extendedReq", mid, 0, 0)
+                m["controls"] = ctrl
+        else:
+            mid = mdl.resolve(("open", v))
+            okind = mdl.opkind.get(mid, "extended")
+            kind = {"bind": "bindResponse", "extended": "extendedResp"}.get(okind, "searchResEntry")
+            m = peer_message(kind, mid, 0, 0)
+            m["controls"] = ctrl
+        try:
+            r = s.receive(rfc4511.encode(m))
+        except BaseException as e:
+            return Outcome("recv", False, e, None, None, {"msgs": [m]})
+        return Outcome("recv", True, None, [absval.to_abstract(x, decoded=True) for x in r], None, {"msgs": [m]})
     raise ValueError(f"unknown step {step!r}")
 
 
@@ -611,6 +665,8 @@ def run_plain(
                 v = mdl.incoming(m["kind"], m["id"], (m.get("result") or {}).get("code", 0), m.get("name") if m["kind"] == "extendedResp" else None)
                 if not v.accepted:
                     break
+            if not o.ok:
+                mdl._close()
         elif o.kind == "garbage" and not o.ok:
             mdl._close()
         emitted = sess.drain(s) if full_drain else b""
